@@ -206,3 +206,17 @@ pub fn run_cli(vfs: &Rc<Vfs>, proc_: &Proc, argv: &[String]) -> Obs {
         },
     }
 }
+
+/// clap caches `default_value_t` expressions (the default of `--now`, i.e. the clock) in a
+/// process-wide `OnceLock`, so a worker can hand okane a simulated date only once. Pin it to
+/// the base date before any run, so that every later run sees the same default whatever
+/// ran before it in this worker.
+pub fn pin_clock_default() {
+    use clap::Parser as _;
+    let vfs = Rc::new(Vfs::new(Rc::new(std::collections::BTreeMap::new())));
+    let _ = in_process(&vfs, 0, || {
+        let _ = okane::cmd::Cli::try_parse_from(["okane", "balance", "/w/none.ledger"]);
+    });
+}
+
+pub const BASE_TODAY: (i32, u32, u32) = (2024, 6, 15);
